@@ -148,14 +148,14 @@ _C03_STAGES = {
     "quick": [
         {"flavor": "native", "shards": 16, "scale": 100},
         {"flavor": "relfast", "shards": 16, "scale": 50},
-        {"flavor": "asan", "shards": 16, "scale": 30, "env": {"ASAN_OPTIONS": "halt_on_error=1:detect_leaks=1:abort_on_error=0"}},
-        {"flavor": "miri", "shards": 16, "scale": 100, "timeout": 900},
+        {"flavor": "asan", "shards": 16, "scale": 30, "optional": True, "env": {"ASAN_OPTIONS": "halt_on_error=1:detect_leaks=1:abort_on_error=0"}},
+        {"flavor": "miri", "shards": 16, "scale": 100, "optional": True, "timeout": 900},
     ],
     "thorough": [
         {"flavor": "native", "shards": 16, "scale": 100},
         {"flavor": "relfast", "shards": 16, "scale": 50},
-        {"flavor": "asan", "shards": 16, "scale": 30, "env": {"ASAN_OPTIONS": "halt_on_error=1:detect_leaks=1:abort_on_error=0"}},
-        {"flavor": "miri", "shards": 16, "scale": 100, "timeout": 3600},
+        {"flavor": "asan", "shards": 16, "scale": 30, "optional": True, "env": {"ASAN_OPTIONS": "halt_on_error=1:detect_leaks=1:abort_on_error=0"}},
+        {"flavor": "miri", "shards": 16, "scale": 100, "optional": True, "timeout": 3600},
     ],
 }
 
